@@ -95,6 +95,8 @@ class Result:
             if len([s for s in self.samples if s.get("verdict") == "tabled"]) < 6:
                 self.samples.append({"rule": rule, "construct": key, "verdict": "tabled", "detail": t.get("reason")})
             return False
+        if any(f.rule == rule and f.key == key for f in self.findings):
+            return True
         self.findings.append(Finding(rule, key, message, loc, path, excerpt))
         return True
 
